@@ -13,8 +13,15 @@
 (*            waker | retry | park) x Writer::process_writer_command (pop & *)
 (*            wake per command)                                             *)
 (*  "await"   AsyncWaitForAcknowledgments::poll (send command | poll the    *)
-(*            completion channel, registering the waker | park) x the       *)
-(*            Writer completing the wait                                    *)
+(*            completion channel: lock, try_recv | store the waker, unlock  *)
+(*            | park) x the Writer completing the wait (pop the command |   *)
+(*            StatusChannelSender::try_send: lock, send, wake, unlock).     *)
+(*            Here the grain is finer than lock release: the application    *)
+(*            stops INSIDE the critical section of the completion channel   *)
+(*            (yield point "sr1") and the writer stops in front of the same *)
+(*            mutex ("sl0", scheduler-aware), so the atomicity of "look,    *)
+(*            then register the waker" is a fact the model states (lk) and  *)
+(*            the conformance run checks, not an assumption.                *)
 (*  "nkstream", "nkbare"  the same receive thread x the async stream of a  *)
 (*            no_key DataReader: a wrapper that polls the keyed stream     *)
 (*            again (in the same poll) whenever it yields a dispose, which *)
@@ -42,9 +49,10 @@ VARIABLES
   q, sent,        \* command queue length; writes the application has completed
   cmdSent, signal,\* "await": command is in the queue / completion signal in the channel
   finished,       \* "await": the future returned Ready
+  lk,             \* "await": the mutex of the completion channel's waker slot is held by the application
   trail
 
-vars == <<pc0, pc1, ins, del, waker, waker2, wakeFlag, r8, n6, q, sent, cmdSent, signal, finished, trail>>
+vars == <<pc0, pc1, ins, del, waker, waker2, wakeFlag, r8, n6, q, sent, cmdSent, signal, finished, lk, trail>>
 
 \* item kinds for the configurations (a cfg file cannot write a tuple)
 KindsNone == <<>>
@@ -61,7 +69,7 @@ Init ==
   /\ pc1 = CASE Scenario \in {"stream", "nkstream", "nkbare"} -> "a_poll" [] Scenario \in {"mio6", "mio8"} -> "c_wait"
              [] Scenario = "awrite" -> "aw_poll" [] Scenario = "await" -> "e_poll"
   /\ ins = 0 /\ del = 0 /\ waker = FALSE /\ waker2 = FALSE /\ wakeFlag = FALSE /\ r8 = FALSE /\ n6 = 0
-  /\ q = 0 /\ sent = 0 /\ cmdSent = FALSE /\ signal = FALSE /\ finished = FALSE
+  /\ q = 0 /\ sent = 0 /\ cmdSent = FALSE /\ signal = FALSE /\ finished = FALSE /\ lk = FALSE
   /\ trail = <<>>
 
 T(i) == trail' = Append(trail, i)
@@ -69,40 +77,48 @@ T(i) == trail' = Append(trail, i)
 (* ------------------------------------------------ thread 0: receive thread *)
 R0 == /\ Reader /\ pc0 = "r_inject" /\ ins < N
       /\ ins' = ins + 1 /\ pc0' = "n0"                       \* cache insert + reliable marker, one lock
-      /\ UNCHANGED <<pc1, del, waker, wakeFlag, r8, n6, q, sent, cmdSent, signal, finished, waker2>> /\ T(0)
+      /\ UNCHANGED <<pc1, del, waker, wakeFlag, r8, n6, q, sent, cmdSent, signal, finished, lk, waker2>> /\ T(0)
 R1 == /\ pc0 = "n0" /\ pc0' = "n1"                           \* waker.take().map(wake)
       /\ waker' = FALSE /\ wakeFlag' = (wakeFlag \/ waker)
-      /\ UNCHANGED <<pc1, ins, del, r8, n6, q, sent, cmdSent, signal, finished, waker2>> /\ T(0)
+      /\ UNCHANGED <<pc1, ins, del, r8, n6, q, sent, cmdSent, signal, finished, lk, waker2>> /\ T(0)
 R2 == /\ pc0 = "n1" /\ pc0' = "n2" /\ r8' = TRUE             \* poll_event_sender.send()
-      /\ UNCHANGED <<pc1, ins, del, waker, wakeFlag, n6, q, sent, cmdSent, signal, finished, waker2>> /\ T(0)
+      /\ UNCHANGED <<pc1, ins, del, waker, wakeFlag, n6, q, sent, cmdSent, signal, finished, lk, waker2>> /\ T(0)
 R3 == /\ pc0 = "n2" /\ pc0' = "r_inject"                     \* notification_sender.try_send(())
       /\ n6' = IF n6 < 4 THEN n6 + 1 ELSE n6
-      /\ UNCHANGED <<pc1, ins, del, waker, wakeFlag, r8, q, sent, cmdSent, signal, finished, waker2>> /\ T(0)
+      /\ UNCHANGED <<pc1, ins, del, waker, wakeFlag, r8, q, sent, cmdSent, signal, finished, lk, waker2>> /\ T(0)
 
 (* ------------------------------------------------- thread 0: writer thread *)
 \* process_writer_command pops every queued command; after each pop it wakes the stored waker
-W0 == /\ ~Reader /\ pc0 \in {"w_pop", "k1"}
+W0 == /\ Scenario = "awrite" /\ pc0 \in {"w_pop", "k1"}
       /\ IF q > 0
-           THEN LET isWait == Scenario = "await" /\ cmdSent IN    \* the popped command is the wait itself; no reader
-                /\ q' = q - 1 /\ pc0' = "k1"                      \* is matched, so it completes at once
-                /\ signal' = (signal \/ isWait)
-                \* cc_upload_waker is woken by reference (it stays stored); the status channel takes its waker
-                /\ wakeFlag' = (wakeFlag \/ (Scenario = "awrite" /\ waker) \/ (Scenario = "await" /\ (waker2 \/ (isWait /\ waker))))
-                /\ waker' = IF isWait THEN FALSE ELSE waker
-           ELSE /\ pc0' = "w_pop" /\ UNCHANGED <<q, wakeFlag, signal, waker>>
-      /\ UNCHANGED <<pc1, ins, del, r8, n6, sent, cmdSent, finished, waker2>> /\ T(0)
+           THEN /\ q' = q - 1 /\ pc0' = "k1"
+                /\ wakeFlag' = (wakeFlag \/ waker)             \* cc_upload_waker is woken by reference (it stays stored)
+           ELSE /\ pc0' = "w_pop" /\ UNCHANGED <<q, wakeFlag>>
+      /\ UNCHANGED <<pc1, ins, del, r8, n6, sent, cmdSent, finished, lk, waker2, signal, waker>> /\ T(0)
+\* "await": the only command is the wait itself; no reader is matched, so it completes at once: the Writer goes
+\* straight to StatusChannelSender::try_send and stops in front of the channel's mutex
+W1 == /\ Scenario = "await" /\ pc0 = "w_pop"
+      /\ IF q > 0 THEN q' = q - 1 /\ pc0' = "sl0" ELSE UNCHANGED <<q, pc0>>
+      /\ UNCHANGED <<pc1, ins, del, r8, n6, sent, cmdSent, finished, lk, waker2, signal, waker, wakeFlag>> /\ T(0)
+\* lock | send | wake and take the stored waker | unlock
+W2 == /\ pc0 = "sl0" /\ ~lk
+      /\ signal' = TRUE /\ wakeFlag' = (wakeFlag \/ waker) /\ waker' = FALSE /\ pc0' = "w_pop"
+      /\ UNCHANGED <<pc1, ins, del, r8, n6, q, sent, cmdSent, finished, lk, waker2>> /\ T(0)
+\* scheduled while the application is inside its critical section: blocked on the mutex, no progress
+W2b == /\ pc0 = "sl0" /\ lk
+       /\ UNCHANGED <<pc0, pc1, ins, del, r8, n6, q, sent, cmdSent, finished, lk, waker2, signal, waker, wakeFlag>> /\ T(0)
 
 (* ------------------------------------------ thread 1: async stream consumer *)
 S0 == /\ Scenario = "stream" /\ pc1 = "a_poll"              \* first try_take_one
       /\ IF ins > del THEN del' = del + 1 /\ pc1' = "a_poll" ELSE pc1' = "p1" /\ UNCHANGED del
-      /\ UNCHANGED <<pc0, ins, waker, wakeFlag, r8, n6, q, sent, cmdSent, signal, finished, waker2>> /\ T(1)
+      /\ UNCHANGED <<pc0, ins, waker, wakeFlag, r8, n6, q, sent, cmdSent, signal, finished, lk, waker2>> /\ T(1)
 S1 == /\ pc1 = "p1" /\ pc1' = "p2" /\ waker' = TRUE         \* set_waker
-      /\ UNCHANGED <<pc0, ins, del, wakeFlag, r8, n6, q, sent, cmdSent, signal, finished, waker2>> /\ T(1)
+      /\ UNCHANGED <<pc0, ins, del, wakeFlag, r8, n6, q, sent, cmdSent, signal, finished, lk, waker2>> /\ T(1)
 S2 == /\ ~NoKey /\ pc1 = "p2"                               \* second try_take_one
       /\ IF ins > del THEN del' = del + 1 /\ pc1' = "a_poll" ELSE pc1' = "a_parked" /\ UNCHANGED del
-      /\ UNCHANGED <<pc0, ins, waker, wakeFlag, r8, n6, q, sent, cmdSent, signal, finished, waker2>> /\ T(1)
+      /\ UNCHANGED <<pc0, ins, waker, wakeFlag, r8, n6, q, sent, cmdSent, signal, finished, lk, waker2>> /\ T(1)
 S3 == /\ pc1 = "a_parked" /\ wakeFlag /\ wakeFlag' = FALSE /\ pc1' = "a_poll"    \* the executor re-polls a woken task
-      /\ UNCHANGED <<pc0, ins, del, waker, r8, n6, q, sent, cmdSent, signal, finished, waker2>> /\ T(1)
+      /\ UNCHANGED <<pc0, ins, del, waker, r8, n6, q, sent, cmdSent, signal, finished, lk, waker2>> /\ T(1)
 
 (* --------------------------- thread 1: async stream of a no_key DataReader *)
 \* del counts the items taken out of the cache (values handed over and disposes skipped).
@@ -113,52 +129,55 @@ Skip(d) == IF d < ins /\ Kinds[d + 1] = "D" THEN Skip(d + 1) ELSE d
 NK0 == /\ NoKey /\ pc1 = "a_poll"                             \* first try_take_one (after any skipped disposes)
        /\ LET d2 == Skip(del) IN
             IF ins > d2 THEN del' = d2 + 1 /\ pc1' = "a_poll" ELSE del' = d2 /\ pc1' = "p1"
-       /\ UNCHANGED <<pc0, ins, waker, wakeFlag, r8, n6, q, sent, cmdSent, signal, finished, waker2>> /\ T(1)
+       /\ UNCHANGED <<pc0, ins, waker, wakeFlag, r8, n6, q, sent, cmdSent, signal, finished, lk, waker2>> /\ T(1)
 NK2 == /\ NoKey /\ pc1 = "p2"                                 \* second try_take_one
        /\ IF ins > del
             THEN IF Kinds[del + 1] = "V" THEN del' = del + 1 /\ pc1' = "a_poll"
                  ELSE LET d2 == Skip(del) IN                  \* a dispose: the wrapper polls the keyed stream again
                       IF ins > d2 THEN del' = d2 + 1 /\ pc1' = "a_poll" ELSE del' = d2 /\ pc1' = "p1"
             ELSE pc1' = "a_parked" /\ UNCHANGED del
-       /\ UNCHANGED <<pc0, ins, waker, wakeFlag, r8, n6, q, sent, cmdSent, signal, finished, waker2>> /\ T(1)
+       /\ UNCHANGED <<pc0, ins, waker, wakeFlag, r8, n6, q, sent, cmdSent, signal, finished, lk, waker2>> /\ T(1)
 
 (* -------------------------------------------------- thread 1: mio consumers *)
 Readable == IF Scenario = "mio6" THEN n6 > 0 ELSE r8
 C0 == /\ Scenario \in {"mio6", "mio8"} /\ pc1 = "c_wait" /\ Readable    \* poll returned an event
       /\ pc1' = "c_take"
-      /\ UNCHANGED <<pc0, ins, del, waker, wakeFlag, r8, n6, q, sent, cmdSent, signal, finished, waker2>> /\ T(1)
+      /\ UNCHANGED <<pc0, ins, del, waker, wakeFlag, r8, n6, q, sent, cmdSent, signal, finished, lk, waker2>> /\ T(1)
 C1 == /\ pc1 = "c_take" /\ pc1' = "t1" /\ n6' = 0 /\ r8' = FALSE        \* take(): drain_read_notifications
-      /\ UNCHANGED <<pc0, ins, del, waker, wakeFlag, q, sent, cmdSent, signal, finished, waker2>> /\ T(1)
+      /\ UNCHANGED <<pc0, ins, del, waker, wakeFlag, q, sent, cmdSent, signal, finished, lk, waker2>> /\ T(1)
 C2 == /\ pc1 = "t1"                                                      \* take(): fill + take everything
       /\ del' = ins /\ pc1' = IF ins > del THEN "c_take" ELSE "c_wait"    \* take until empty
-      /\ UNCHANGED <<pc0, ins, waker, wakeFlag, r8, n6, q, sent, cmdSent, signal, finished, waker2>> /\ T(1)
+      /\ UNCHANGED <<pc0, ins, waker, wakeFlag, r8, n6, q, sent, cmdSent, signal, finished, lk, waker2>> /\ T(1)
 
 (* ------------------------------------------------------ thread 1: AsyncWrite *)
 A0 == /\ Scenario = "awrite" /\ pc1 = "aw_poll" /\ sent < Cap + N       \* try_send
       /\ IF q < Cap THEN q' = q + 1 /\ sent' = sent + 1 /\ pc1' = "aw_poll"
          ELSE pc1' = "w1" /\ UNCHANGED <<q, sent>>
-      /\ UNCHANGED <<pc0, ins, del, waker, wakeFlag, r8, n6, cmdSent, signal, finished, waker2>> /\ T(1)
+      /\ UNCHANGED <<pc0, ins, del, waker, wakeFlag, r8, n6, cmdSent, signal, finished, lk, waker2>> /\ T(1)
 A1 == /\ pc1 = "w1" /\ pc1' = "w2" /\ waker' = TRUE                      \* store waker
-      /\ UNCHANGED <<pc0, ins, del, wakeFlag, r8, n6, q, sent, cmdSent, signal, finished, waker2>> /\ T(1)
+      /\ UNCHANGED <<pc0, ins, del, wakeFlag, r8, n6, q, sent, cmdSent, signal, finished, lk, waker2>> /\ T(1)
 A2 == /\ pc1 = "w2"                                                      \* retry with the waker in place
       /\ IF q < Cap THEN q' = q + 1 /\ sent' = sent + 1 /\ pc1' = "aw_poll"
          ELSE pc1' = "aw_parked" /\ UNCHANGED <<q, sent>>
-      /\ UNCHANGED <<pc0, ins, del, waker, wakeFlag, r8, n6, cmdSent, signal, finished, waker2>> /\ T(1)
+      /\ UNCHANGED <<pc0, ins, del, waker, wakeFlag, r8, n6, cmdSent, signal, finished, lk, waker2>> /\ T(1)
 A3 == /\ pc1 = "aw_parked" /\ wakeFlag /\ wakeFlag' = FALSE /\ pc1' = "aw_poll"
-      /\ UNCHANGED <<pc0, ins, del, waker, r8, n6, q, sent, cmdSent, signal, finished, waker2>> /\ T(1)
+      /\ UNCHANGED <<pc0, ins, del, waker, r8, n6, q, sent, cmdSent, signal, finished, lk, waker2>> /\ T(1)
 
 (* ----------------------------------- thread 1: AsyncWaitForAcknowledgments *)
 E0 == /\ Scenario = "await" /\ pc1 = "e_poll" /\ ~cmdSent               \* WaitingSendCommand: try_send
       /\ q' = q + 1 /\ cmdSent' = TRUE /\ pc1' = "a1" /\ waker2' = TRUE    \* waker stored before try_send
-      /\ UNCHANGED <<pc0, ins, del, waker, wakeFlag, r8, n6, sent, signal, finished>> /\ T(1)
-E1 == /\ pc1 \in {"a1", "e_repoll"}                                     \* Waiting: poll the completion channel
-      /\ IF signal THEN finished' = TRUE /\ pc1' = "e_done" /\ UNCHANGED waker
-         ELSE waker' = TRUE /\ pc1' = "e_parked" /\ UNCHANGED finished   \* registers the waker
-      /\ UNCHANGED <<pc0, ins, del, wakeFlag, r8, n6, q, sent, cmdSent, signal, waker2>> /\ T(1)
+      /\ UNCHANGED <<pc0, ins, del, waker, wakeFlag, r8, n6, sent, signal, finished, lk>> /\ T(1)
+E1 == /\ pc1 \in {"a1", "e_repoll"}                                     \* Waiting: lock the waker slot, try_recv
+      /\ IF signal THEN finished' = TRUE /\ pc1' = "e_done" /\ UNCHANGED lk
+         ELSE lk' = TRUE /\ pc1' = "sr1" /\ UNCHANGED finished          \* empty: stays inside the critical section
+      /\ UNCHANGED <<pc0, ins, del, waker, wakeFlag, r8, n6, q, sent, cmdSent, signal, waker2>> /\ T(1)
+E1b == /\ pc1 = "sr1"                                                   \* store the waker, unlock, return Pending
+       /\ waker' = TRUE /\ lk' = FALSE /\ pc1' = "e_parked"
+       /\ UNCHANGED <<pc0, ins, del, wakeFlag, r8, n6, q, sent, cmdSent, signal, finished, waker2>> /\ T(1)
 E2 == /\ pc1 = "e_parked" /\ wakeFlag /\ wakeFlag' = FALSE /\ pc1' = "e_repoll"
-      /\ UNCHANGED <<pc0, ins, del, waker, r8, n6, q, sent, cmdSent, signal, finished, waker2>> /\ T(1)
+      /\ UNCHANGED <<pc0, ins, del, waker, r8, n6, q, sent, cmdSent, signal, finished, lk, waker2>> /\ T(1)
 
-Next == R0 \/ R1 \/ R2 \/ R3 \/ W0 \/ S0 \/ S1 \/ S2 \/ S3 \/ NK0 \/ NK2 \/ C0 \/ C1 \/ C2 \/ A0 \/ A1 \/ A2 \/ A3 \/ E0 \/ E1 \/ E2
+Next == R0 \/ R1 \/ R2 \/ R3 \/ W0 \/ S0 \/ S1 \/ S2 \/ S3 \/ NK0 \/ NK2 \/ C0 \/ C1 \/ C2 \/ A0 \/ A1 \/ A2 \/ A3 \/ E0 \/ E1 \/ E1b \/ E2 \/ W1 \/ W2 \/ W2b
 Spec == Init /\ [][Next]_vars
 
 (* -------------------------------------------------------------- property *)
@@ -171,7 +190,7 @@ LostWake ==
   \/ (pc1 = "e_parked" /\ signal /\ ~wakeFlag)
 Inv_NoLostWake == ~LostWake
 
-View == <<pc0, pc1, ins, del, waker, waker2, wakeFlag, r8, n6, q, sent, cmdSent, signal, finished>>
+View == <<pc0, pc1, ins, del, waker, waker2, wakeFlag, r8, n6, q, sent, cmdSent, signal, finished, lk>>
 \* dump the schedule of every behaviour prefix that ends with the producer idle (a quiescent point)
 GenEdge == (GenK > 0 /\ RandomElement(1..GenK) = 1) =>
              PrintT("REPLAY " \o ToJson([scenario |-> Scenario, n |-> N, kinds |-> Kinds, sched |-> trail']))
